@@ -305,7 +305,9 @@ pub fn c15_shift_nn() {
 // C07
 // ---------------------------------------------------------------------------------------------
 
-/// the step length computed from tau, kappa (no cones) is in [0,1] for positive tau, kappa
+/// the step length computed from tau, kappa (no cones) is in [0,1] for positive tau, kappa, and is the
+/// exact distance to tau = 0 / kappa = 0 (times max_step_fraction for a combined step).
+/// tau, kappa and their directions are signed powers of two (exact, cheap); max_step_fraction any f64 in (0,1].
 #[kani::proof]
 #[kani::unwind(4)]
 #[kani::stub(std::collections::hash_map::RandomState::new, stub_random_state)]
@@ -313,11 +315,11 @@ pub fn c07_alpha_range() {
     crate::stack_composite!(c, f64, []);
     let mut v = DefaultVariables::<f64>::new(1, 0);
     let mut step = DefaultVariables::<f64>::new(1, 0);
-    v.τ = kani::any();
-    v.κ = kani::any();
-    step.τ = kani::any();
-    step.κ = kani::any();
-    kani::assume(v.τ > 0.0 && v.κ > 0.0 && v.τ.is_finite() && v.κ.is_finite());
+    v.τ = pow2_signed(-40, 40);
+    v.κ = pow2_signed(-40, 40);
+    step.τ = pow2_signed(-40, 40);
+    step.κ = pow2_signed(-40, 40);
+    kani::assume(v.τ > 0.0 && v.κ > 0.0);
     let mut st = settings_f64();
     let msf: f64 = kani::any();
     kani::assume(msf > 0.0 && msf <= 1.0);
@@ -326,30 +328,24 @@ pub fn c07_alpha_range() {
     let dir = if combined { StepDirection::Combined } else { StepDirection::Affine };
     let a = v.calc_step_length(&step, &mut c, &st, dir);
     assert!(a >= 0.0 && a <= 1.0, "step_length_in_unit_interval");
-    if !combined && !(step.τ < 0.0) && !(step.κ < 0.0) {
-        assert!(a == 1.0, "full_step_when_tau_kappa_do_not_decrease");
+    let mut r = 1.0f64;
+    if step.τ < 0.0 && -v.τ / step.τ < r {
+        r = -v.τ / step.τ;
+    }
+    if step.κ < 0.0 && -v.κ / step.κ < r {
+        r = -v.κ / step.κ;
+    }
+    if !combined {
+        assert!(a == r, "affine_step_is_the_exact_distance_to_tau_or_kappa_zero_capped_at_one");
+        // taking it keeps tau and kappa nonnegative
+        assert!(v.τ + a * step.τ >= 0.0 && v.κ + a * step.κ >= 0.0, "tau_kappa_stay_nonnegative");
+    } else {
+        assert!(a <= r, "combined_step_not_longer_than_the_distance_to_the_boundary");
+        if msf < 1.0 {
+            assert!(v.τ + a * step.τ > 0.0 && v.κ + a * step.κ > 0.0, "tau_kappa_stay_strictly_positive_with_a_step_fraction_below_one");
+        }
     }
     kani::cover!(a < 1.0 && a > 0.0 && !combined, "tau or kappa restricts the step");
+    kani::cover!(combined && msf < 1.0 && step.τ < 0.0, "combined step towards tau = 0");
 }
 
-/// the k-th iterate does not depend on the iteration budget: the termination check of two runs whose
-/// settings differ only in max_iter (both budgets not yet exhausted) leaves identical state
-#[kani::proof]
-pub fn c07_budget_noninterference() {
-    let info = crate::verdict::any_info();
-    let mut a = info.clone();
-    let mut b = info.clone();
-    a.status = SolverStatus::Unsolved;
-    b.status = SolverStatus::Unsolved;
-    let r = crate::verdict::any_residual_scalars(1, 1);
-    let sa = crate::verdict::any_settings();
-    let mut sb = sa.clone();
-    sb.max_iter = kani::any();
-    kani::assume(sa.max_iter != info.iterations && sb.max_iter != info.iterations);
-    let iter: u32 = kani::any();
-    let ra = a.check_termination(&r, &sa, iter);
-    let rb = b.check_termination(&r, &sb, iter);
-    assert!(ra == rb && a.status == b.status, "verdict_independent_of_the_remaining_budget");
-    kani::cover!(a.status == SolverStatus::Solved);
-    kani::cover!(a.status == SolverStatus::Unsolved);
-}
